@@ -1,6 +1,6 @@
 """C09 — Weaver state stays well-formed; caller data and the original are never corrupted."""
 from tools.harness.core import Property
-from tools.props.weaver_units import WeaverUnit
+from tools.props.weaver_units import WeaverUnit, BigIntAbscissaeUnit
 
 
 class P(Property):
@@ -8,7 +8,7 @@ class P(Property):
     gen_targets = ["Funfit", "WeaverFootprint", "WeaverGlue"]
 
     def units(self, tier):
-        return [WeaverUnit(("C09",), max_len=10)]
+        return [WeaverUnit(("C09",), max_len=10), BigIntAbscissaeUnit()]
 
 
 PROPERTY = P()
